@@ -898,9 +898,9 @@ Section Main.
   Qed.
 
   Lemma case_local ns ls at_ es l :
-    length ns = length ls -> (length es <= length ns)%nat -> Forall core_e es -> Forall Pe es -> Ps (SLocal ns ls at_ es l).
+    length ns = length ls -> Forall core_e es -> Forall Pe es -> Ps (SLocal ns ls at_ es l).
   Proof.
-    intros Hlen Hle Hces Hpes flv slv reg en o HM Hin Hat Hn. cbn [m2_stat sk_stat fst snd] in HM |- *.
+    intros Hlen Hces Hpes flv slv reg en o HM Hin Hat Hn. cbn [m2_stat sk_stat fst snd] in HM |- *.
     set (IDL := flat_map id_marks ls) in *. set (ME := flat_map m2_exp es) in *.
     set (IL := init_loc ns ls es l) in *.
     set (LV := local_vars es (combine ns ls) RNone IL).
@@ -911,7 +911,6 @@ Section Main.
     { intros x y Hx Hy. apply Hcross0; [exact Hx|apply incl_region_marks; exact Hy]. }
     assert (Hmi : forall m, In m IDL -> mark_ok W m = true) by (intros m Hm; exact (MG_in W _ _ HMi Hm)).
     assert (Hme : forall m, In m ME -> mark_ok W m = true) by (intros m Hm; exact (MG_in W _ _ HMe Hm)).
-    assert (Hlec : (length es <= length (combine ns ls))%nat) by (rewrite combine_length; lia).
     assert (Htab : forall e, In e es -> tab_of_exp e = None).
     { intros e He. apply frag_tab. rewrite Forall_forall in Hces. exact (proj1 (Hces e He)). }
     destruct (in_b_local flv slv reg ns ls at_ es l en o Hin) as [(i & e & o0 & Hnth & Ho0 & Hrt)|((nm & lx) & bb & Hnl & E)].
@@ -949,12 +948,12 @@ Section Main.
       assert (Hcur : CUR lx).
       { destruct Hat as [H1 H2]. apply (cur_keys W line col); auto. apply Hmi. exact (proj1 Hidm). }
       assert (Hv0 : exists v0, In v0 LV /\ v_name v0 = nm /\ v_loc v0 = lx).
-      { pose proof (local_vars_shape IL es (combine ns ls) RNone Hlec) as Hs. rewrite <- Hs in Hin2.
+      { pose proof (local_vars_shape IL es (combine ns ls) RNone) as Hs. rewrite <- Hs in Hin2.
         apply in_map_iff in Hin2. destruct Hin2 as (v0 & E & Hv0). injection E as E1 E2. eauto. }
       destruct Hv0 as (v0 & Hv0 & Hv0n & Hv0l).
       assert (Hlocs : exists rest, ls = map v_loc LV ++ rest).
       { destruct (combine_snd_prefix ns ls) as (rest & Er). exists rest. rewrite Er at 1. f_equal.
-        rewrite <- (local_vars_shape IL es (combine ns ls) RNone Hlec) at 1. rewrite map_map. reflexivity. }
+        rewrite <- (local_vars_shape IL es (combine ns ls) RNone) at 1. rewrite map_map. reflexivity. }
       destruct Hlocs as (rest & Els).
       assert (HMl : MG W (flat_map id_marks (map v_loc LV))).
       { unfold IDL in HMi. rewrite Els, flat_map_app in HMi. exact (proj1 (MG_app W _ _ HMi)). }
@@ -1123,7 +1122,7 @@ Section Main.
       cbn [frag_exp shp_exp] in Hf0, Hs0. destruct colon; [discriminate|]. destruct cls; [|rewrite andb_false_r in Hf0; discriminate].
       cbn [negb andb] in Hf0. apply andb_true_iff in Hf0. destruct Hf0 as [_ Hfb].
       apply assign_sugar; [exact Hfn|split; assumption|exact Hp0].
-    - intros ns ls at_ es l _ Hlen Hle Hce IHe. apply case_local; assumption.
+    - intros ns ls at_ es l _ Hlen Hce IHe. apply case_local; assumption.
     - intros n0 nl f ps pls b lf va l _ [Hf Hs] IH. cbn [frag_exp shp_exp negb andb] in Hf, Hs.
       apply andb_true_iff in Hf. destruct Hf as [_ Hfb]. apply case_localfunc; [split; assumption|exact IH].
     - intros ss ret l Hcs IHs Hcr IHr. apply case_block; assumption.
